@@ -126,6 +126,102 @@ theorem enabled_step_work (g : Conc σ ρ) (h : LockInv g) (t : Nat) (he : enabl
         omega
 
 
+/-! ### the annotated lock of Part 2 moves as the protocol of Part 1 says -/
+
+variable {σ ρ : Type}
+
+theorem conc_lock_refines (g : Conc σ ρ) (h : LockInv g) (t : Nat) :
+    (step g t).lockSt = g.lockSt ∨
+    ∃ r, lockStep .arc g.lockSt r = (.ok, (step g t).lockSt) := by
+  unfold step stepP
+  cases hth : g.threads[t]? with
+  | none => exact Or.inl rfl
+  | some th =>
+    obtain ⟨prog, phase, results, obs⟩ := th
+    cases phase with
+    | idle =>
+      cases prog with
+      | nil => exact Or.inl rfl
+      | cons o rest =>
+        simp only [Policy.excl]
+        cases hw : o.write with
+        | true =>
+          simp only [if_true]
+          split
+          · rename_i hfree
+            refine Or.inr ⟨.borrowMut, ?_⟩
+            simp [lockStep, canWrite, Conc.lockSt, hfree.1, hfree.2]
+          · exact Or.inl rfl
+        | false =>
+          simp only [Bool.false_eq_true, if_false]
+          split
+          · rename_i hfree
+            refine Or.inr ⟨.borrow, ?_⟩
+            simp [lockStep, canRead, Conc.lockSt, hfree]
+          · exact Or.inl rfl
+    | held => exact Or.inl rfl
+    | loaded s =>
+      cases prog with
+      | nil => exact Or.inl rfl
+      | cons o rest =>
+        simp only []
+        split <;> exact Or.inl rfl
+    | fin w =>
+      cases w with
+      | true =>
+        have hw := h.wHeld t _ hth (by simp [Thread.holdsW])
+        refine Or.inr ⟨.dropWrite, ?_⟩
+        simp [lockStep, Conc.lockSt, hw]
+      | false =>
+        have hr := h.rHeld t _ hth (by simp [Thread.holdsR])
+        refine Or.inr ⟨.dropRead, ?_⟩
+        have hpos : 0 < g.readers.length := List.length_pos_of_mem hr
+        simp [lockStep, Conc.lockSt, List.length_erase_of_mem hr, hpos]
+
+theorem blocked_is_block (g : Conc σ ρ) (t : Nat) (th : Thread σ ρ) (o : Op σ ρ) (rest : List (Op σ ρ))
+    (ht : g.threads[t]? = some th) (hp : th.phase = .idle) (hprog : th.prog = o :: rest)
+    (hne : enabled g t = false) :
+    (lockStep .arc g.lockSt (if o.write then .borrowMut else .borrow)).1 = .block ∧ step g t = g := by
+  obtain ⟨prog, phase, results, obs⟩ := th
+  simp only at hp hprog
+  subst hp hprog
+  simp only [enabled, ht] at hne
+  unfold step stepP
+  simp only [ht, Policy.excl]
+  cases hw : o.write with
+  | true =>
+    simp only [hw, if_true] at hne ⊢
+    have hnf : ¬ (g.writer = none ∧ g.readers = []) := by
+      intro ⟨h1, h2⟩
+      simp [h1, h2] at hne
+    refine ⟨?_, by simp [hnf]⟩
+    simp only [lockStep, canWrite, Conc.lockSt, conflict]
+    have hc : (!g.writer.isSome && g.readers.length == 0) = false := by
+      cases hb : (!g.writer.isSome && g.readers.length == 0) with
+      | false => rfl
+      | true =>
+        exfalso
+        apply hnf
+        simp only [Bool.and_eq_true, Bool.not_eq_true', beq_iff_eq, List.length_eq_zero_iff] at hb
+        refine ⟨?_, hb.2⟩
+        cases hwr : g.writer with
+        | none => rfl
+        | some w => simp [hwr] at hb
+    simp [hnf]
+  | false =>
+    simp only [hw, Bool.false_eq_true, if_false] at hne ⊢
+    have hnf : ¬ (g.writer = none) := by
+      intro h1
+      simp [h1] at hne
+    refine ⟨?_, by simp [hnf]⟩
+    simp only [lockStep, canRead, Conc.lockSt, conflict]
+    have hc : (!g.writer.isSome) = false := by
+      cases hwr : g.writer with
+      | none => exact absurd hwr hnf
+      | some w => rfl
+    simp [hnf]
+
+
 /-! ### several cells -/
 
 
